@@ -125,7 +125,8 @@ def Block.cmdLine (b : Block) : Line := '$' :: ' ' :: b.cmd
 def contLine (x : Line) : Line := '>' :: ' ' :: x
 /-- the exit codes written among the lines (a line `[n]` with `n ≤ i32::MAX`) -/
 def exitCodes (after : List Line) : List Nat := after.filterMap extractExitCode
-/-- the other lines: the expectations -/
+/-- the other lines: the expectations (`Block.WF` demands that none of them has the form of an
+exit code line, i.e. is an exit code line whose number does not fit into an `i32`) -/
 def expLines (after : List Line) : List Line := after.filter (fun a => (extractExitCode a).isNone)
 def Block.exps (b : Block) : List Line := expLines b.after
 def Block.exit (b : Block) : Option Nat := (exitCodes b.after).head?
@@ -185,9 +186,11 @@ def Block.WF (env : Env) (b : Block) : Prop :=
   -- no line of the block closes it early; the closing line starts with the opening fence
   (∀ x ∈ b.body, startsWith x b.bt = false) ∧ startsWith b.closer b.bt = true ∧
   (∀ c ∈ b.comments, isComment c = true) ∧
-  -- at most one exit code line; the other lines are accepted by the expectation grammar; the line
-  -- directly after the command does not continue it
-  (exitCodes b.after).length ≤ 1 ∧ (∀ e ∈ b.exps, env.expOk e = true) ∧
+  -- at most one exit code line; the other lines are accepted by the expectation grammar and have not
+  -- the form `^\[[0-9]+\]$` of an exit code line (such a line with a number above `i32::MAX` is an
+  -- error of the line parser: `exitCodeOutOfRange`); the line directly after the command does not
+  -- continue it
+  (exitCodes b.after).length ≤ 1 ∧ (∀ e ∈ b.exps, env.expOk e = true ∧ isExitCodeForm e = false) ∧
   (match b.after with
     | a :: _ => stripPrefix ['>', ' '] a = none
     | [] => True)
@@ -336,7 +339,7 @@ def Block.OpenWF (env : Env) (b : Block) : Prop :=
   cfgAccepted env b.config ∧
   (∀ x ∈ b.body, startsWith x b.bt = false) ∧
   (∀ c ∈ b.comments, isComment c = true) ∧
-  (exitCodes b.after).length ≤ 1 ∧ (∀ e ∈ b.exps, env.expOk e = true) ∧
+  (exitCodes b.after).length ≤ 1 ∧ (∀ e ∈ b.exps, env.expOk e = true ∧ isExitCodeForm e = false) ∧
   (match b.after with
     | a :: _ => stripPrefix ['>', ' '] a = none
     | [] => True)
